@@ -8,6 +8,7 @@ equal (`assemble_congr`).  Order of events / ODE terms and the explicit-ODE rout
 not the value (`order_irrelevant`, `explicit_ode_route`), for every field and interpretation.
 -/
 import Pygom.Props.C01
+import Pygom.Build
 import Mathlib.Algebra.BigOperators.Group.List.Lemmas
 
 set_option linter.unusedSimpArgs false
@@ -349,6 +350,26 @@ theorem splitDecl_join (names : List (List Char)) (hn : ∀ w ∈ names, IsName 
       = names.map String.ofList := by
   unfold splitDecl
   rw [String.toList_ofList, splitDecl_join_chars names hn seps tail hs ht hlen]
+
+/-! ### Staged construction (incremental route observed between operations) -/
+
+/-- Building with the incremental operations `ops₁ ++ ops₂` is building with `ops₁` and then folding `ops₂` over
+the result.  Hence the model the harness observes between two incremental operations is the model of the spec
+read up to there (the driver is asked for exactly that prefix), and since `buildModel` has no argument besides
+the spec, neither observing the intermediate model nor the existence of another instance can change what the
+remaining operations produce: the interleaving probes of the harness hold the real code to this. -/
+theorem staged_build (s : Spec) (ops₁ ops₂ : List Mut) :
+    buildModel { s with thenOps := ops₁ ++ ops₂ }
+      = (buildModel { s with thenOps := ops₁ }) >>= fun m => ops₂.foldlM applyMut m := by
+  unfold buildModel
+  simp only [List.foldlM_append, bind_assoc]
+
+/-- one more incremental operation = the operation applied to the model built so far -/
+theorem staged_build_snoc (s : Spec) (ops : List Mut) (op : Mut) :
+    buildModel { s with thenOps := ops ++ [op] }
+      = (buildModel { s with thenOps := ops }) >>= fun m => applyMut m op := by
+  rw [staged_build]
+  simp [List.foldlM_cons, List.foldlM_nil]
 
 /-- non-vacuity -/
 example : splitDecl " S, I  R " = ["S", "I", "R"] := by decide
